@@ -102,7 +102,8 @@ def _build(ch):
     s_kinds = [ch.pick(f"S{i}.kind", ["object", "str_enum", "int_enum", "array", "scalar"]) for i in range(3)]
     s_break = [ch.pick(f"S{i}.broken", list(BREAKS)) for i in range(3)]
     dep = ch.pick("deps", ["none", "S1->S0", "S2->S1->S0", "S1-items->S0", "S1-allOf->S0", "S1-union->S0", "S1-addl->S0"])
-    names = ["Alpha", "Beta", "Gamma"]
+    names = {"unrelated": ["Alpha", "Beta", "Gamma"], "dependants-are-prefixes": ["UserGroupSet", "UserGroup", "User"],
+             "dependants-are-suffixes": ["Set", "GroupSet", "UserGroupSet"]}[ch.pick("names", ["dependants-are-prefixes", "unrelated", "dependants-are-suffixes"])]      # default: related names (a substring census would be fooled)
     for i, n in enumerate(names):
         sch = SKINDS[s_kinds[i]]()
         if s_break[i] != "none":
@@ -127,12 +128,12 @@ def _build(ch):
         elif how == "addl":
             s["additionalProperties"] = ref(dst)
     if dep == "S1->S0":
-        link("Beta", "Alpha", "prop")
+        link(names[1], names[0], "prop")
     elif dep == "S2->S1->S0":
-        link("Beta", "Alpha", "prop")
-        link("Gamma", "Beta", "prop")
+        link(names[1], names[0], "prop")
+        link(names[2], names[1], "prop")
     elif dep.startswith("S1-"):
-        link("Beta", "Alpha", dep[3:].split("->")[0])
+        link(names[1], names[0], dep[3:].split("->")[0])
     # operations
     paths = {}
     tagging = ch.pick("tags", ["own-tag-each", "all-untagged", "one-shared-tag"])
@@ -232,6 +233,7 @@ def _pathitem_cases():
     every operation is generated or named, whatever happens to its siblings."""
     methods = ("get", "put", "post", "delete")
     for sname, shared in SHARED_PARAMS.items():
+      for flavour in (("plain", "with-warnings") if sname == "good" else ("plain",)):
         for modes in itertools.product(("inherits", "overrides", "absent"), repeat=len(methods)):
             if modes.count("absent") > 2:
                 continue
@@ -241,15 +243,55 @@ def _pathitem_cases():
                 if mode == "absent":
                     continue
                 op = {"operationId": f"{m}Shared", "responses": {"200": {"description": "ok"}}}
+                if flavour == "with-warnings":      # statuses / media types that are left out with a warning
+                    op["responses"].update({"default": {"description": "d"}, "5XX": {"description": "e"}})
+                    if m in ("put", "post"):
+                        op["requestBody"] = {"content": {"application/json": {"schema": {"type": "object", "properties": {"a": {"type": "string"}}}},
+                                                         "application/xml": {"schema": {"type": "string"}}, "text/csv": {"schema": {"type": "string"}}}}
                 if mode == "overrides":      # a valid operation-level parameter with the same name and location
                     op["parameters"] = [{"name": "pp", "in": "path", "required": True, "schema": {"type": "string"}}] if sname == "optional-path" else \
                         [{"name": "q", "in": "query", "schema": {"type": "boolean"}}]
                 item[m] = op
-            yield {"labels": [f"shared-param={sname}", "ops=" + ",".join(f"{m}:{md}" for m, md in zip(methods, modes) if md != "absent")],
-                   "payload": {"doc": gen.base_doc(None, paths={path: item}), "key": f"path-item/{sname}"}}
+            yield {"labels": [f"shared-param={sname}", "ops=" + ",".join(f"{m}:{md}" for m, md in zip(methods, modes) if md != "absent")] + ([flavour] if flavour != "plain" else []),
+                   "payload": {"doc": gen.base_doc(None, paths={path: item}), "key": f"path-item/{sname}" + ("/warnings" if flavour != "plain" else "")}}
+
+
+def _dependant_chain_cases():
+    """A broken schema, a dependant and a dependant of the dependant that NO operation mentions: every one of the three is named by a
+    diagnostic (or generated).  Names unrelated / each a prefix of the broken one's / each a suffix; every edge kind on both edges."""
+    ref = lambda n: {"$ref": f"#/components/schemas/{n}"}  # noqa: E731
+    namings = {"unrelated": ["Alpha", "Beta", "Gamma"], "prefixes": ["UserGroupSet", "UserGroup", "User"], "suffixes": ["UserGroupSet", "GroupSet", "Set"]}
+    edges = ("prop", "items", "allOf", "union", "addl")
+
+    def dependant(on, how):
+        s_ = {"type": "object", "properties": {"v": {"type": "integer"}}}
+        if how == "prop":
+            s_["properties"]["link"] = ref(on)
+        elif how == "items":
+            s_["properties"]["links"] = {"type": "array", "items": ref(on)}
+        elif how == "union":
+            s_["properties"]["either"] = {"oneOf": [ref(on), {"type": "integer"}]}
+        elif how == "addl":
+            s_["additionalProperties"] = ref(on)
+        else:
+            s_ = {"allOf": [ref(on), {"type": "object", "properties": {"own": {"type": "string"}}}]}
+        return s_
+    for nname, names in namings.items():
+        for brk in [b for b in BREAKS if b != "none"]:
+            for e1, e2 in itertools.product(edges, edges):
+                for order in ("root-first", "root-last"):
+                    root = {"type": "object", "properties": {"v": {"type": "integer"}, "bad": copy.deepcopy(BREAKS[brk])}}
+                    comps = {names[0]: root, names[1]: dependant(names[0], e1), names[2]: dependant(names[1], e2)}
+                    if order == "root-last":
+                        comps = {k: comps[k] for k in reversed(list(comps))}
+                    comps["Unrelated"] = {"type": "object", "properties": {"u": {"type": "string"}}}
+                    paths = {"/u": {"get": _op("getU", None, "/u", responses={"200": {"description": "d", "content": {"application/json": {"schema": ref("Unrelated")}}}})}}
+                    yield {"labels": [f"dependant-chain={nname}", f"broken={brk}", f"edges={e1},{e2}", order],
+                           "payload": {"doc": gen.base_doc(comps, paths=paths), "key": f"dependant-chain/{nname}"}}
 
 
 def cases(tier):
+    yield from _dependant_chain_cases()
     yield from _op_pairs()
     yield from _schema_pairs()
     yield from _media_sets()
@@ -293,6 +335,11 @@ def _dummy(ann):
     if isinstance(ann, type) and issubclass(ann, enum.Enum):
         return list(ann)[0]
     return "v"
+
+
+def _names(text, name):
+    """The diagnostics name a schema when its name occurs as a whole token (UserGroup does not name User)."""
+    return re.search(r"(?<![A-Za-z0-9_])" + re.escape(name) + r"(?![A-Za-z0-9_])", text) is not None
 
 
 def _tmpl_regex(path):
@@ -363,7 +410,7 @@ def run_case(p):
             if not (is_obj or is_enum):
                 continue
             refname = f"/components/schemas/{sname}"
-            named = sname in diag
+            named = _names(diag, sname)
             got = claims.get(refname)
             if not got:
                 # a schema used as a multipart body is re-registered by the generator under the body's name: find it by class name
